@@ -25,6 +25,8 @@ struct Sub {
 struct Sub2 { int a_rather_long_parameter_name; int x; Sub2() : a_rather_long_parameter_name(0), x(0) {} static const rtosc::Ports ports; };
 struct Deep { int a_parameter_with_a_name_that_is_just_as_unreasonably_long_as_its_parent_s; Deep() : a_parameter_with_a_name_that_is_just_as_unreasonably_long_as_its_parent_s(0) {} static const rtosc::Ports ports; };
 struct Odd { int pi_min, pi_max; float pf_min, pf_max; int ai_min[3]; float af_max[3]; int po_max; int po_pre; int ao_pre[3]; float volume; int vol; char pc_r, pc_r2; short ps16; signed char pc200; short as16[3]; int cut_i, pi_big, pi_imax, pi_narrow; Deep a_sub_tree_with_a_name_that_is_much_longer_than_anyone_would_type_by_hand_0123456789; Odd() { memset((void *)this, 0, sizeof *this); pc_r2 = 1; cut_i = 20; pi_narrow = 2000000000; } static const rtosc::Ports ports; };
+// a table put together from two tables with rtosc::MergePorts (the later table has ports whose names begin earlier ports' names, and one true duplicate)
+struct Mrg { float volume; int vol; bool mute; char mu; int dup; static const rtosc::Ports first, second; static const rtosc::MergePorts ports; };
 struct App {
     char pc; int pi; int pi_nb; int pi_neg; int pi_frac;
     float pf; float pf_log; float pf_nb; float pf_unit;
@@ -34,6 +36,7 @@ struct App {
     Odd odd;
     Sub sub; Sub subs[3]; Sub *psub; Sub subs12[12]; Sub2 sub2s[12];
     Sub psub_store;
+    Mrg mrg;
     App() { memset((void *)this, 0, sizeof *this); psub = &psub_store; pi_neg = -20; pf_log = 1.0f; odd.pc_r2 = 1; odd.cut_i = 20; odd.pi_narrow = 2000000000; }   // every field starts inside its declared range
     static const rtosc::Ports ports;
 };
@@ -83,6 +86,19 @@ inline const rtosc::Ports Sub2::ports = {
     rParamI(x, rLinear(-9, 9), "short name"),
 };
 #undef rObject
+#define rObject Mrg
+inline const rtosc::Ports Mrg::first = {
+    rParamF(volume, rLinear(0, 10), "float param of the first table"),
+    rToggle(mute, "toggle of the first table"),
+    rParamI(dup, rLinear(0, 5), "declared in both tables (the first one counts)"),
+};
+inline const rtosc::Ports Mrg::second = {
+    rParamI(vol, rLinear(0, 100), "int param of the second table whose name begins the first table's volume"),
+    rParam(mu, rLinear(0, 64), "char param of the second table whose name begins the first table's mute"),
+    rParamI(dup, rLinear(0, 5), "declared in both tables"),
+};
+inline const rtosc::MergePorts Mrg::ports = {&Mrg::first, &Mrg::second};
+#undef rObject
 #define rObject App
 inline const rtosc::Ports App::ports = {
     rParam(pc, "char param"),
@@ -120,6 +136,7 @@ inline const rtosc::Ports App::ports = {
     rRecur(sub, "sub tree"),
     rRecurs(subs, 3, "sub tree array"),
     rRecurp(psub, "sub tree pointer"),
+    rRecur(mrg, "table merged from two tables"),
 };
 #undef rObject
 
@@ -223,6 +240,11 @@ inline const std::vector<Leaf> &leaves() {
     L.push_back({"/odd/volume", K_PARAM_F, true, true, "0", "1000", {}, 0, [](App &a) { return vf(a.odd.volume); }});
     L.push_back({"/odd/vol", K_PARAM_I, true, true, "0", "100", {}, 0, [](App &a) { return vi(a.odd.vol); }});
     for (int i = 0; i < 3; i++) L.push_back({"/odd/ao_pre" + std::to_string(i), K_OPTION, true, true, "0", "2", {"tri", "triangle", "t"}, 0, [i](App &a) { return vi(a.odd.ao_pre[i]); }});
+    L.push_back({"/mrg/volume", K_PARAM_F, true, true, "0", "10", {}, 0, [](App &a) { return vf(a.mrg.volume); }});
+    L.push_back({"/mrg/vol", K_PARAM_I, true, true, "0", "100", {}, 0, [](App &a) { return vi(a.mrg.vol); }});
+    L.push_back({"/mrg/mute", K_TOGGLE, false, false, "", "", {}, 0, [](App &a) { return vb(a.mrg.mute); }});
+    L.push_back({"/mrg/mu", K_PARAM_C, true, true, "0", "64", {}, 0, [](App &a) { return vi(a.mrg.mu); }});
+    L.push_back({"/mrg/dup", K_PARAM_I, true, true, "0", "5", {}, 0, [](App &a) { return vi(a.mrg.dup); }});
     return L;
 }
 
